@@ -13,8 +13,9 @@ open JsonC JsonC.Heap Driver
 structure St where
   m : Option State                    -- none after a model fault / misuse
   w : Option Ownership.World            -- none once the spec stopped following
+  nomem : Bool := false               -- "nomem": the per-line block balance is not compared (constant-key members)
 
-def init : St := ⟨some JsonC.Heap.init, some {}⟩
+def init : St := ⟨some JsonC.Heap.init, some {}, false⟩
 
 def parseVal (s : String) : Option (Option Id) :=
   if s = "-" then some none else s.toNat?.map some
@@ -198,11 +199,13 @@ def step (s : St) (w : List String) : St × Out :=
     | none => (s, { model := "model-stopped-earlier" })
     | some m =>
       let left (n blocks : Nat) : String := if n ≠ 0 then "n/a" else if blocks = 0 then "yes" else "no"
-      let line := s!"end nodes={m.heap.length} none-left={left m.heap.length m.heap.blocks} ## mem={m.heap.blocks}"
+      let line := if s.nomem then s!"end nodes={m.heap.length} none-left={left m.heap.length 0} ## mem=-"
+        else s!"end nodes={m.heap.length} none-left={left m.heap.length m.heap.blocks} ## mem={m.heap.blocks}"
       let spec := match s.w with
         | some wd => s!"end nodes={wd.nodes.length} none-left={left wd.nodes.length 0}"
         | none => "*"
       (s, { model := line, spec := spec })
+  | ["nomem"] => ({ s with nomem := true }, { model := "ok", spec := "*" })
   | _ =>
   match parseOp w with
   | none => (s, { model := "bad-op" })
@@ -216,7 +219,7 @@ def step (s : St) (w : List String) : St × Out :=
       | .ok (m', r) =>
         let cbs := r.cbs.map (fun c => (c.id, c.tok, c.final))
         let mline := specLine r.ret r.made cbs r.dead ++
-          s!" ## order={bracket (cbs.map cbStr)} {liveStr m'.heap} mem={m'.heap.blocks}"
+          s!" ## order={bracket (cbs.map cbStr)} {liveStr m'.heap} mem={if s.nomem then "-" else toString m'.heap.blocks}"
         let (sline, w') := match s.w with
           | none => ("*", none)
           | some wd =>
@@ -229,6 +232,6 @@ def step (s : St) (w : List String) : St × Out :=
           | none, some wd => if r.ret < 0 ∧ m'.heap.length = m.heap.length then
                 some { wd with next := m'.next } else none
           | x, _ => x
-        ({ m := some m', w := w'' }, { model := mline, spec := sline, cov := covOf m op r })
+        ({ s with m := some m', w := w'' }, { model := mline, spec := sline, cov := covOf m op r })
 
 end Driver.Heap
